@@ -1,23 +1,30 @@
 /-
-  C19 — executable model of lattigo's parameter validation and moduli generation.
+  C19 — executable model of lattigo's parameter validation, moduli generation, derived quantities and codecs.
+  Hand-written and tied to the code by the correspondence (driver ops in `Driver/C19.lean`); the derived
+  quantities of core/rlwe/params.go also exist REGENERATED from the source (`Gen/Params.lean`, `Props/C19Gen.lean`).
 
-  Follows (read-only) /repo:
-    core/rlwe/params.go      NewParametersFromLiteral, NewParameters, checkSizeParams, CheckModuli,
-                             checkModuliLogSize, GenModuli, accessors (MaxLevel, GaloisElement, …)
-    ring/ring.go             NewRingFromType / NewRingWithCustomNTT (degree, non-empty, distinct)
-    ring/subring.go          generateNTTConstants (prime, ≡ 1 mod NthRoot)
-    ring/primes.go           NTTFriendlyPrimesGenerator (upstream / downstream / alternating)
-    schemes/bgv/params.go    NewParameters (checks on the plaintext modulus t, auxiliary basis)
-    schemes/ckks/params.go   derived quantities
+  Follows (read-only) /repo, with the fixes /verif/fixes/C19-1 … C19-13 applied:
+    core/rlwe/params.go      NewParametersFromLiteral, NewParameters, checkSizeParams, CheckModuli (every modulus
+                             < 2^61, Q ∪ P pairwise distinct), checkModuliLogSize, GenModuli (root order range-checked,
+                             sizes below it rejected), the level-dependent accessors (QiOverflowMargin = 2^64-1 / max,
+                             BaseRNS/BaseTwoDecompositionVectorSize, MaxBit, LogQi, …), GaloisElement*
+    ring/ring.go, subring.go NewRingFromType / NewRingWithCustomNTT / generateNTTConstants (degree, non-empty, distinct,
+                             prime, ≡ 1 mod NthRoot)
+    ring/primes.go           NTTFriendlyPrimesGenerator: upstream / downstream / alternating, exhaustion = error
+    schemes/bgv/params.go    NewParameters (plaintext modulus checks; the auxiliary basis skips the primes of Q)
+    schemes/ckks/params.go   LogDefaultScale check, slots / depth
+    circuits/ckks/bootstrapping  the residual-chain root-order check of NewParametersFromLiteral (`btpResidualCheck`)
+    JSON field lists         ring distributions, rlwe.ParametersLiteral, bootstrapping.Parameters / ParametersLiteral
+                             (`Key`, `JV`, `encode…` / `decode…`; nested documents with their own codec are opaque)
+    spec/security_table.json `tableMax`, and the dump of every exported parameter set (`exportedSets`, generated)
 
-  The model is parametric in an `Oracle` (primality and the two floating point "overlap with the
-  neighbouring bit-size" tests of the generator); the driver instantiates it with a deterministic
-  Miller–Rabin test and a port of Go's `math.Log2` on IEEE doubles (`goOracle`).
-  Loops that are unbounded `for {}` in Go take a `fuel`; running out of fuel is the outcome `hang`.
-  The model follows /repo *with the C19 fixes applied* (/verif/fixes/C19-1…6): every modulus below
-  2^61, Q ∪ P pairwise distinct, LogN checked before moduli are generated, `GenModuli` range-checks
-  its `LogNthRoot` and rejects sizes below it, the single-direction generator loops return the
-  exhaustion error instead of spinning, bgv's auxiliary basis skips the primes of Q.
+  The model is parametric in an `Oracle` (primality and the two floating point "overlap with the neighbouring
+  bit-size" tests of the generator); the driver instantiates it with a deterministic Miller–Rabin test and a
+  bit-exact port of Go's `math.Log2` on IEEE doubles (`goOracle`); `exactOracle` reads the two tests exactly and is
+  what the kernel can evaluate. Loops that are unbounded `for {}` in Go take a `fuel`; running out of fuel is the
+  outcome `hang` (with `StopComplete` and `fuel ≥ 2^65` it cannot occur: `Proofs/ParamsTerm.lean`, `ParamsUp.lean`).
+  Not modelled: secret / error distributions beyond "weight 0" / "deviation 0" warnings (acceptance of a distribution
+  is probed: `accepted_dist_usable`), the text codec of `Scale`, float formatting.
   Core Lean only.
 -/
 import Lattigo.Word
@@ -760,6 +767,364 @@ def exportedSets : List ExportedSet := [
     p := [2305843009211662337] }
 ]
 -- END GENERATED exportedSets
+
+/-! ## the JSON field lists of the parameter codecs
+
+  `MarshalBinary` of every parameter struct is its JSON encoding (rlwe prefixes a length), so the codec
+  is determined by the list of JSON fields, their `omitempty` tags, and what the decoder does with an
+  absent field.  The model below has one object = ordered list of `(Key, JV)`; sub-documents whose own
+  text codec is outside C19 (the `Scale` text, a whole `ckks.Parameters`, the `MatrixLiteral`s, the mod1
+  literal) are opaque `blob`s, a `float64` is an opaque code with `0` for `+0.0` (Go's float ⇄ JSON text
+  round trip is exact), the ring-type and distribution-type strings are their enum values. -/
+
+inductive Key where
+  | LogN | LogNthRoot | Q | P | LogQ | LogP | Xe | Xs | RingType | DefaultScale | NTTFlag
+  | Type | H | Sigma | Bound
+  | ResidualParameters | BootstrappingParameters | SlotsToCoeffsParameters | Mod1ParametersLiteral
+  | CoeffsToSlotsParameters | IterationsParameters | EphemeralSecretWeight | CircuitOrder
+  | BootstrappingPrecision | ReservedPrimeBitSize
+  | LogSlots | CoeffsToSlotsFactorizationDepthAndLogScales | SlotsToCoeffsFactorizationDepthAndLogScales
+  | EvalModLogScale | Mod1Type | LogMessageRatio | K | Mod1Degree | DoubleAngle | Mod1InvDegree
+  deriving DecidableEq, Repr
+
+def Key.name : Key → String
+  | .LogN => "LogN" | .LogNthRoot => "LogNthRoot" | .Q => "Q" | .P => "P" | .LogQ => "LogQ" | .LogP => "LogP"
+  | .Xe => "Xe" | .Xs => "Xs" | .RingType => "RingType" | .DefaultScale => "DefaultScale" | .NTTFlag => "NTTFlag"
+  | .Type => "Type" | .H => "H" | .Sigma => "Sigma" | .Bound => "Bound"
+  | .ResidualParameters => "ResidualParameters" | .BootstrappingParameters => "BootstrappingParameters"
+  | .SlotsToCoeffsParameters => "SlotsToCoeffsParameters" | .Mod1ParametersLiteral => "Mod1ParametersLiteral"
+  | .CoeffsToSlotsParameters => "CoeffsToSlotsParameters" | .IterationsParameters => "IterationsParameters"
+  | .EphemeralSecretWeight => "EphemeralSecretWeight" | .CircuitOrder => "CircuitOrder"
+  | .BootstrappingPrecision => "BootstrappingPrecision" | .ReservedPrimeBitSize => "ReservedPrimeBitSize"
+  | .LogSlots => "LogSlots"
+  | .CoeffsToSlotsFactorizationDepthAndLogScales => "CoeffsToSlotsFactorizationDepthAndLogScales"
+  | .SlotsToCoeffsFactorizationDepthAndLogScales => "SlotsToCoeffsFactorizationDepthAndLogScales"
+  | .EvalModLogScale => "EvalModLogScale" | .Mod1Type => "Mod1Type" | .LogMessageRatio => "LogMessageRatio"
+  | .K => "K" | .Mod1Degree => "Mod1Degree" | .DoubleAngle => "DoubleAngle" | .Mod1InvDegree => "Mod1InvDegree"
+
+/-- a JSON value, as far as the parameter codecs distinguish values -/
+inductive JV where
+  | null
+  | num (n : Int)
+  | bool (b : Bool)
+  | ring (t : Nat)          -- "Standard" / "ConjugateInvariant" / "Invalid"
+  | dtype (t : Nat)         -- "Ternary" = 0 / "DiscreteGaussian" = 1 / "Uniform" = 2
+  | flt (code : Nat)        -- a float64; code 0 is +0.0
+  | unums (l : List Nat)    -- []uint64
+  | nums (l : List Int)     -- []int
+  | numss (l : List (List Int))
+  | flts (l : List Nat)     -- []float64
+  | blob (code : Nat)       -- a sub-document with its own codec
+  | obj (fields : List (Key × JV))
+
+abbrev JObj := List (Key × JV)
+
+def JObj.get (o : JObj) (k : Key) : Option JV := o.lookup k
+
+/-- a field tagged `omitempty` is dropped when `empty` -/
+def omitIf (empty : Bool) (k : Key) (v : JV) : JObj := if empty then [] else [(k, v)]
+
+/-! ### ring.DistributionParameters -/
+
+/-- `ring.Ternary{P, H}`, `ring.DiscreteGaussian{Sigma, Bound}`, `ring.Uniform{}` -/
+inductive Dist where
+  | ternary (p : Nat) (h : Int)
+  | gaussian (sigma bound : Nat)
+  | uniform
+  deriving DecidableEq, Repr
+
+/-- the distributions' `MarshalJSON`: Ternary writes `Type` plus its non-zero fields (`omitempty`), Gaussian
+    `Type`, `Sigma`, `Bound` always (fix C19-12: they were `omitempty` but are required by the decoder) -/
+def encodeDist : Dist → JV
+  | .ternary p h => .obj ([(Key.Type, .dtype 0)] ++ omitIf (p == 0) .P (.flt p) ++ omitIf (h == 0) .H (.num h))
+  | .gaussian s b => .obj [(Key.Type, .dtype 1), (Key.Sigma, .flt s), (Key.Bound, .flt b)]
+  | .uniform => .obj [(Key.Type, .dtype 2)]
+
+/-- `ring.ParametersFromMap`: a Ternary needs exactly one of `P`, `H` non-zero, a Gaussian needs both
+    `Sigma` and `Bound` to be PRESENT -/
+def decodeDist : JV → Except String Dist
+  | .obj fs =>
+    match JObj.get fs .Type with
+    | some (.dtype 2) => .ok .uniform
+    | some (.dtype 0) =>
+      match (match JObj.get fs .P with | some (.flt p) => some p | none => some 0 | _ => none),
+            (match JObj.get fs .H with | some (.num h) => some h | none => some 0 | _ => none) with
+      | some p, some h => if (p != 0) == (h != 0) then .error "ternary: exactly one of P, H" else .ok (.ternary p h)
+      | _, _ => .error "ternary: field type"
+    | some (.dtype 1) =>
+      match JObj.get fs .Sigma, JObj.get fs .Bound with
+      | some (.flt s), some (.flt b) => .ok (.gaussian s b)
+      | _, _ => .error "gaussian: Sigma and Bound are required"
+    | _ => .error "distribution type"
+  | _ => .error "distribution: not an object"
+
+/-- the distributions that survive their own codec: every Gaussian, Uniform, and a Ternary with exactly one of
+    `P`, `H` set — which is also what `NewParameters` accepts (fix C19-13) apart from the `P = H = 0` warning -/
+def Dist.codecOK : Dist → Bool
+  | .ternary p h => (p != 0) != (h != 0)
+  | .gaussian _ _ => true
+  | .uniform => true
+
+def decodeOptDist : Option JV → Except String (Option Dist)
+  | none => .ok none
+  | some .null => .ok none
+  | some v => (decodeDist v).map some
+
+/-! ### rlwe.ParametersLiteral -/
+
+/-- `rlwe.ParametersLiteral`; `none` is a nil slice / nil interface -/
+structure RlweLit where
+  logN : Int
+  logNthRoot : Int
+  q : Option (List Nat)
+  p : Option (List Nat)
+  logQ : Option (List Int)
+  logP : Option (List Int)
+  xe : Option Dist
+  xs : Option Dist
+  ringType : Nat
+  defaultScale : Nat        -- opaque: the Scale text
+  nttFlag : Bool
+  deriving DecidableEq, Repr
+
+def emptyOpt {α} : Option (List α) → Bool
+  | none => true
+  | some l => l.isEmpty
+
+/-- `json.Marshal(rlwe.ParametersLiteral)`: the struct tags of core/rlwe/params.go:54 (all but `LogN` and
+    `DefaultScale` are `omitempty`; on a struct-typed field the tag has no effect) -/
+def encodeRlweLit (l : RlweLit) : JObj :=
+  [(Key.LogN, .num l.logN)] ++
+  omitIf (l.logNthRoot == 0) .LogNthRoot (.num l.logNthRoot) ++
+  omitIf (emptyOpt l.q) .Q (.unums (l.q.getD [])) ++
+  omitIf (emptyOpt l.p) .P (.unums (l.p.getD [])) ++
+  omitIf (emptyOpt l.logQ) .LogQ (.nums (l.logQ.getD [])) ++
+  omitIf (emptyOpt l.logP) .LogP (.nums (l.logP.getD [])) ++
+  omitIf l.xe.isNone .Xe ((l.xe.map encodeDist).getD .null) ++
+  omitIf l.xs.isNone .Xs ((l.xs.map encodeDist).getD .null) ++
+  omitIf (l.ringType == 0) .RingType (.ring l.ringType) ++
+  [(Key.DefaultScale, .blob l.defaultScale)] ++
+  omitIf (!l.nttFlag) .NTTFlag (.bool l.nttFlag)
+
+def getNum (o : JObj) (k : Key) : Except String Int :=
+  match o.get k with
+  | none => .ok 0
+  | some .null => .ok 0
+  | some (.num n) => .ok n
+  | _ => .error s!"{k.name}: number expected"
+
+def getUNums (o : JObj) (k : Key) : Except String (Option (List Nat)) :=
+  match o.get k with
+  | none => .ok none
+  | some .null => .ok none
+  | some (.unums l) => .ok (some l)
+  | _ => .error s!"{k.name}: array expected"
+
+def getNums (o : JObj) (k : Key) : Except String (Option (List Int)) :=
+  match o.get k with
+  | none => .ok none
+  | some .null => .ok none
+  | some (.nums l) => .ok (some l)
+  | _ => .error s!"{k.name}: array expected"
+
+/-- `(*rlwe.ParametersLiteral).UnmarshalJSON` (with fix C19-8: `LogNthRoot` is read) -/
+def decodeRlweLit (o : JObj) : Except String RlweLit := do
+  let logN ← getNum o .LogN
+  let root ← getNum o .LogNthRoot
+  let q ← getUNums o .Q
+  let p ← getUNums o .P
+  let logQ ← getNums o .LogQ
+  let logP ← getNums o .LogP
+  let xs ← decodeOptDist (o.get .Xs)
+  let xe ← decodeOptDist (o.get .Xe)
+  let rt ← (match o.get .RingType with
+    | none => .ok 0
+    | some (.ring t) => if t ≤ 1 then .ok t else .error "invalid ring type"
+    | _ => .error "RingType: string expected" : Except String Nat)
+  let sc ← (match o.get .DefaultScale with
+    | none => .ok 0
+    | some (.blob c) => .ok c
+    | _ => .error "DefaultScale" : Except String Nat)
+  let ntt ← (match o.get .NTTFlag with
+    | none => .ok false
+    | some (.bool b) => .ok b
+    | _ => .error "NTTFlag" : Except String Bool)
+  return { logN := logN, logNthRoot := root, q := q, p := p, logQ := logQ, logP := logP, xe := xe, xs := xs,
+           ringType := rt, defaultScale := sc, nttFlag := ntt }
+
+/-- `omitempty` cannot tell an empty slice from a nil one -/
+def normSlice {α} : Option (List α) → Option (List α)
+  | some [] => none
+  | x => x
+
+def RlweLit.normalize (l : RlweLit) : RlweLit :=
+  { l with q := normSlice l.q, p := normSlice l.p, logQ := normSlice l.logQ, logP := normSlice l.logP }
+
+/-! ### bootstrapping.Parameters and bootstrapping.ParametersLiteral -/
+
+structure Iter where
+  precision : Option (List Nat)
+  reserved : Int
+  deriving DecidableEq, Repr
+
+def encodeIter : Option Iter → JV
+  | none => .null
+  | some it => .obj [(Key.BootstrappingPrecision, match it.precision with | none => .null | some l => .flts l),
+                     (Key.ReservedPrimeBitSize, .num it.reserved)]
+
+def decodeIter : Option JV → Except String (Option Iter)
+  | none => .ok none
+  | some .null => .ok none
+  | some (.obj fs) => do
+    let pr ← (match JObj.get fs .BootstrappingPrecision with
+      | none => .ok none
+      | some .null => .ok none
+      | some (.flts l) => .ok (some l)
+      | _ => .error "BootstrappingPrecision" : Except String (Option (List Nat)))
+    let r ← getNum fs .ReservedPrimeBitSize
+    return some { precision := pr, reserved := r }
+  | _ => .error "IterationsParameters"
+
+/-- `bootstrapping.Parameters` (the five nested parameter objects are opaque) -/
+structure BtpParams where
+  residual : Nat
+  bootstrapping : Nat
+  s2c : Nat
+  mod1 : Nat
+  c2s : Nat
+  iterations : Option Iter
+  ephemeralSecretWeight : Int
+  circuitOrder : Int
+  deriving DecidableEq, Repr
+
+/-- `bootstrapping.Parameters.MarshalJSON`: eight fields, none of them `omitempty` -/
+def encodeBtp (p : BtpParams) : JObj :=
+  [(Key.ResidualParameters, .blob p.residual), (Key.BootstrappingParameters, .blob p.bootstrapping),
+   (Key.SlotsToCoeffsParameters, .blob p.s2c), (Key.Mod1ParametersLiteral, .blob p.mod1),
+   (Key.CoeffsToSlotsParameters, .blob p.c2s), (Key.IterationsParameters, encodeIter p.iterations),
+   (Key.EphemeralSecretWeight, .num p.ephemeralSecretWeight), (Key.CircuitOrder, .num p.circuitOrder)]
+
+def getBlob (o : JObj) (k : Key) : Except String Nat :=
+  match o.get k with
+  | none => .ok 0
+  | some (.blob c) => .ok c
+  | _ => .error s!"{k.name}: object expected"
+
+/-- `(*bootstrapping.Parameters).UnmarshalJSON`: an absent field is the zero value (no defaulting) -/
+def decodeBtp (o : JObj) : Except String BtpParams := do
+  let r ← getBlob o .ResidualParameters
+  let b ← getBlob o .BootstrappingParameters
+  let s ← getBlob o .SlotsToCoeffsParameters
+  let m ← getBlob o .Mod1ParametersLiteral
+  let c ← getBlob o .CoeffsToSlotsParameters
+  let it ← decodeIter (o.get .IterationsParameters)
+  let e ← getNum o .EphemeralSecretWeight
+  let co ← getNum o .CircuitOrder
+  return { residual := r, bootstrapping := b, s2c := s, mod1 := m, c2s := c, iterations := it,
+           ephemeralSecretWeight := e, circuitOrder := co }
+
+/-- `bootstrapping.ParametersLiteral`: pointer fields are `Option`s (`none` = nil = "use the default") -/
+structure BtpLit where
+  logN : Option Int
+  logP : Option (List Int)
+  xs : Option Dist
+  xe : Option Dist
+  logSlots : Option Int
+  c2s : Option (List (List Int))
+  s2c : Option (List (List Int))
+  evalModLogScale : Option Int
+  ephemeralSecretWeight : Option Int
+  iterations : Option Iter
+  mod1Type : Int
+  logMessageRatio : Option Int
+  k : Option Int
+  mod1Degree : Option Int
+  doubleAngle : Option Int
+  mod1InvDegree : Option Int
+  deriving DecidableEq, Repr
+
+def encPtr : Option Int → JV
+  | none => .null
+  | some n => .num n
+
+def decPtr (o : JObj) (k : Key) : Except String (Option Int) :=
+  match o.get k with
+  | none => .ok none
+  | some .null => .ok none
+  | some (.num n) => .ok (some n)
+  | _ => .error s!"{k.name}: number expected"
+
+/-- `json.Marshal(bootstrapping.ParametersLiteral)`: sixteen fields, no `omitempty`: nil ⇒ `null`, `&0` ⇒ `0` -/
+def encodeBtpLit (l : BtpLit) : JObj :=
+  [(Key.LogN, encPtr l.logN),
+   (Key.LogP, match l.logP with | none => .null | some v => .nums v),
+   (Key.Xs, (l.xs.map encodeDist).getD .null),
+   (Key.Xe, (l.xe.map encodeDist).getD .null),
+   (Key.LogSlots, encPtr l.logSlots),
+   (Key.CoeffsToSlotsFactorizationDepthAndLogScales, match l.c2s with | none => .null | some v => .numss v),
+   (Key.SlotsToCoeffsFactorizationDepthAndLogScales, match l.s2c with | none => .null | some v => .numss v),
+   (Key.EvalModLogScale, encPtr l.evalModLogScale),
+   (Key.EphemeralSecretWeight, encPtr l.ephemeralSecretWeight),
+   (Key.IterationsParameters, encodeIter l.iterations),
+   (Key.Mod1Type, .num l.mod1Type),
+   (Key.LogMessageRatio, encPtr l.logMessageRatio),
+   (Key.K, encPtr l.k),
+   (Key.Mod1Degree, encPtr l.mod1Degree),
+   (Key.DoubleAngle, encPtr l.doubleAngle),
+   (Key.Mod1InvDegree, encPtr l.mod1InvDegree)]
+
+def getNumss (o : JObj) (k : Key) : Except String (Option (List (List Int))) :=
+  match o.get k with
+  | none => .ok none
+  | some .null => .ok none
+  | some (.numss l) => .ok (some l)
+  | _ => .error s!"{k.name}: array of arrays expected"
+
+/-- `(*bootstrapping.ParametersLiteral).UnmarshalJSON` (fix C19-9: `Xs`/`Xe` through `ParametersFromMap`) -/
+def decodeBtpLit (o : JObj) : Except String BtpLit := do
+  let logN ← decPtr o .LogN
+  let logP ← getNums o .LogP
+  let xs ← decodeOptDist (o.get .Xs)
+  let xe ← decodeOptDist (o.get .Xe)
+  let logSlots ← decPtr o .LogSlots
+  let c2s ← getNumss o .CoeffsToSlotsFactorizationDepthAndLogScales
+  let s2c ← getNumss o .SlotsToCoeffsFactorizationDepthAndLogScales
+  let ev ← decPtr o .EvalModLogScale
+  let eph ← decPtr o .EphemeralSecretWeight
+  let it ← decodeIter (o.get .IterationsParameters)
+  let mt ← getNum o .Mod1Type
+  let lmr ← decPtr o .LogMessageRatio
+  let k ← decPtr o .K
+  let md ← decPtr o .Mod1Degree
+  let da ← decPtr o .DoubleAngle
+  let mi ← decPtr o .Mod1InvDegree
+  return { logN := logN, logP := logP, xs := xs, xe := xe, logSlots := logSlots, c2s := c2s, s2c := s2c,
+           evalModLogScale := ev, ephemeralSecretWeight := eph, iterations := it, mod1Type := mt,
+           logMessageRatio := lmr, k := k, mod1Degree := md, doubleAngle := da, mod1InvDegree := mi }
+
+/-- names of the top-level keys, in emission order, and of those whose value is `null` -/
+def keyNames (o : JObj) : List String := o.map (·.1.name)
+def nullKeys (o : JObj) : List String := (o.filter fun kv => match kv.2 with | .null => true | _ => false).map (·.1.name)
+def subKeys (v : Option JV) : List String :=
+  match v with
+  | some (.obj fs) => keyNames fs
+  | _ => []
+
+/-! ### the literal of an accepted object (`Parameters.ParametersLiteral()`), for the re-validation theorem -/
+
+def Accepted.literal (a : Accepted) : Literal :=
+  { logN := a.logN, q := some a.q, p := some a.p, ringType := a.ringType }
+
+/-! ### bootstrapping: the residual chain must be NTT-friendly for the bootstrapping ring -/
+
+/-- the root order `bootstrapping.NewParametersFromLiteral` uses: the larger of the residual ring's and `2·2^LogN` of the
+    bootstrapping literal (`LogN` defaults to 16) -/
+def btpNthRoot (resLogN ringType btpLogN : Nat) : Nat :=
+  max ((if ringType = 0 then 2 else 4) * 2 ^ resLogN) (2 * 2 ^ btpLogN)
+
+/-- `for i, q := range residual.Q() { if q&(NthRoot-1) != 1 { error } }`: index of the first offending prime -/
+def btpResidualCheck (resLogN ringType btpLogN : Nat) (q : List Nat) : Option Nat :=
+  firstIdx (fun x => x &&& (btpNthRoot resLogN ringType btpLogN - 1) != 1) q 0
 
 /-! ## executable oracles -/
 
